@@ -1,3 +1,4 @@
+CONSTANTS TreeSample = 6
 INIT Init
 NEXT Next
 CONSTRAINT Emit
